@@ -14,12 +14,16 @@
        Gaussian mass bound is machine-checked by interval integration;
    (d) the executable rational decision procedure used by the correspondence run
        is equivalent to the real definition.
+   (e) the thresholds and the comparison of the model are the ones the translator
+       reads off autograd/test_util.py on this run (TOL, RTOL, scalar_close's
+       expression, the central difference);
    NOT PROVED: array/complex/container arguments, second order, forward mode
    (same decision function; exercised on the implementation with planted
    defects); (H1)/(H2) themselves. *)
 From Coq Require Import Reals QArith Qreals.
 From Coquelicot Require Import Coquelicot.
-From AG Require Import Checker Gaussian Run18.
+From AG Require Import Checker Gaussian Run18 CheckerTie.
+From AGGen Require Import GenChecker.
 Local Open Scope R_scope.
 
 Theorem C18_correct_rule_accepted :
@@ -57,3 +61,10 @@ Theorem C18_decision_procedure_correct :
   forall a b, scalar_close_q a b = true <-> scalar_close (Q2R a) (Q2R b).
 Proof. exact scalar_close_q_correct. Qed.
 Print Assumptions C18_decision_procedure_correct.
+
+Theorem C18_model_follows_source :
+  (Q2R gen_TOL = TOL /\ Q2R gen_RTOL = RTOL /\ gen_TOL = qTOL /\ gen_numerical_jvp = GenCentral)
+  /\ (forall a b, gen_scalar_close a b = true <-> scalar_close (Q2R a) (Q2R b))
+  /\ (forall a b, scalar_close_q a b = gen_scalar_close a b).
+Proof. exact (conj thresholds_follow_source (conj scalar_close_follows_source run18_procedure_is_the_source_expression)). Qed.
+Print Assumptions C18_model_follows_source.
